@@ -33,6 +33,12 @@ fn store_image(cfg: Cfg, f: impl FnOnce(&feoxdb::FeoxStore)) -> Vec<u8> {
 
 pub fn base_images() -> Vec<(String, Vec<u8>)> {
     let mut v = Vec::new();
+    // files that are not FeOx devices at all: zero-filled files of several sizes (below,
+    // at and above the 256-block read window of the all-zero probe) with one foreign
+    // byte somewhere (see `mutations`)
+    for blocks in [17usize, 64, 256, 257, 320, 511, 513, 600] {
+        v.push((format!("zero-{blocks}"), vec![0u8; blocks * BLOCK]));
+    }
     let mut cfg = Cfg::persistent(16);
     cfg.ttl = true;
     v.push((
@@ -75,7 +81,7 @@ pub fn base_images() -> Vec<(String, Vec<u8>)> {
     ));
     // an interrupted batch: active journal entry + pending marker + half-written extent
     {
-        let mut img = v[0].1.clone();
+        let mut img = v.iter().find(|(n, _)| n == "v3-records").unwrap().1.clone();
         let total = (img.len() / BLOCK) as u64;
         let free_at = 24u64.min(total - 4);
         let j = l::encode_journal(9, &[(free_at, 2)]);
@@ -174,6 +180,15 @@ pub fn mutations(img: &[u8], thorough: bool) -> Vec<Mutation> {
     let mut m = vec![Mutation::None];
     let nz = nonzero_blocks(img);
     let total_blocks = (img.len() / BLOCK) as u64;
+    if nz.is_empty() {
+        // a zero-filled file: one foreign byte at the first / last position of every block
+        for b in 0..total_blocks as usize {
+            for off in [0usize, BLOCK - 1] {
+                m.push(Mutation::Set { off: b * BLOCK + off, width: 1, val: 0xA5 });
+            }
+        }
+        return m;
+    }
     // every single bit of the first 64 bytes of every non-zero block, of the whole
     // encoded metadata (136 bytes) and of the journal entry area heads
     for &b in &nz {
@@ -416,6 +431,16 @@ pub fn probe(img: &[u8], path: &Path) -> String {
         }
         Ok(Ok(s)) => s,
     };
+    // A file without a valid metadata copy is a FeOx device only if it is entirely
+    // zero (a fresh device); anything else must have been rejected, not taken over.
+    if l::current_meta(img).is_none() && img.iter().any(|b| *b != 0) {
+        let _ = catch_unwind(AssertUnwindSafe(|| drop(store)));
+        let after = std::fs::read(path).map(|b| hash128(&b)).unwrap_or(0);
+        return format!(
+            "BAD a file that is not recognisably a FeOx device (no valid metadata copy, not zero-filled) was opened as a store{}",
+            if after != before { " and modified" } else { "" }
+        );
+    }
     let r = catch_unwind(AssertUnwindSafe(|| {
         let d = store.verif_dump();
         for rec in &d.records {
